@@ -10,7 +10,7 @@
 From Coq Require Import ZArith List.
 From Emmet Require Import lib.Base model.MarkupConvert model.MarkupResolve model.OutStream model.FormatHtml proofs.HtmlEvents
      proofs.FormatSteps proofs.FormatProofs proofs.FormatChunks proofs.FormatTabstops proofs.FormatCosmetic proofs.FormatDepth proofs.FormatSelfClose
-     proofs.FormatLines proofs.FormatDepthFull proofs.FormatSelfCloseFull proofs.FormatComments.
+     proofs.FormatLines proofs.FormatDepthFull proofs.FormatSelfCloseFull proofs.FormatComments proofs.HtmlTagClass.
 
 (* SPEC.
    fchunks st      the callback invocations of a run, positions erased: CT text | CF index placeholder
@@ -461,3 +461,11 @@ Example indent_is_depth_comments_nonvacuous :
   oc_comment_enabled c = true /\ cfg_depth c = true /\ depth_dom c t = true /\ align_dom c t = true /\
   length (filter is_nl (fchunks (html_format c t))) = 3.
 Proof. cbv zeta. repeat split; vm_compute; reflexivity. Qed.
+
+(* The model of starts_with_block_tag() (which texts are set on lines of their own) is a hand-compiled matcher for
+   re_html_tag = `<` NAME+ END: a greedy run of name characters, then one end character.  It decides the same language as
+   the backtracking regex because the two classes -- generated from the compiled regex, gen/GenHtmlTag.v -- share no code
+   point: for EVERY code point, a name character is never an end character (so the run can never give one back). *)
+Theorem block_tag_classes_disjoint ch : is_tagname_char ch = true -> is_tag_end_char ch = false.
+Proof. exact (tag_name_char_not_end ch). Qed.
+Print Assumptions block_tag_classes_disjoint.
